@@ -1,8 +1,5 @@
 SPECIFICATION Spec
-CONSTANTS NVars = 2
- MaxLen = 2
- MaxClauses = 4
- Shape = "seq"
+CONSTANT Parts <- PartsSeq2x
 INVARIANT ResolutionSound
 INVARIANT RefutationComplete
 INVARIANT CertificateAccepted
